@@ -19,7 +19,7 @@ EXPLANATION = (
     "expand_empty_elements, ...) exists.  V4 numbers: the weight is rendered by a format with a single plain Display argument of "
     "type f64 and parsed with str::parse::<f64>; the <data> element is written exactly when !weight.is_nan() and an edge read "
     "without <data> keeps Edge::new's NaN.  V5 order: nodes are written by iterating the position-ordered node list and read back "
-    "with Vec::push in document order.  V6: the file variants add only file I/O around the string variants.  NOT decided: the "
+    "with Vec::push in document order.  V6: the file variants add only file I/O around the string variants.  V10: an unescaped attribute value reaches the node name / edge endpoint through no content-changing string operation.  NOT decided: the "
     "round-trip equality itself; quick-xml's escape/unescape and f64 Display/FromStr being inverses are trusted."
 )
 TRUSTED = [
@@ -500,6 +500,49 @@ def run(ctx):
     from graphrules import no_edge_identity_collections
 
     no_edge_identity_collections(ctx, prog, "V9", ("readwrite::",), "the document has fewer <edge> elements than the graph has edges (or the graph fewer edges than the document)")
+    # ------------------------------------------------------------------ V10 attribute values are stored verbatim
+    ctx.rule("V10", "an unescaped attribute value reaches the node name / edge endpoint as it is: no trimming, case folding, replacing, splitting or truncating in between")
+    CHANGING = ("trim", "trim_start", "trim_end", "trim_matches", "trim_start_matches", "trim_end_matches", "trim_left", "trim_right", "trim_ascii", "trim_ascii_start", "trim_ascii_end",
+                "to_lowercase", "to_uppercase", "to_ascii_lowercase", "to_ascii_uppercase", "make_ascii_lowercase", "make_ascii_uppercase", "replace", "replacen", "strip_prefix", "strip_suffix",
+                "split", "split_whitespace", "split_once", "rsplit", "rsplit_once", "splitn", "split_terminator", "lines", "truncate", "pop", "remove", "retain", "drain", "split_off", "escape_debug", "escape_default", "normalize")
+    n10 = 0
+    for p in sorted(rscope):
+        b = prog.bodies[p]
+        f10 = flows.of(b)
+        # (a) forwards from every unescaped value to wherever it goes in this function
+        for t in b.calls():
+            if not t.callee:
+                continue
+            last = t.callee.short.split("::")[-1]
+            starts = None
+            if "quick_xml" in t.callee.short and last in ("unescape_value", "decode_and_unescape_value", "unescape"):
+                # backwards from what this function returns (the slice is a dependence slice): the unescaped value
+                # and every operation applied to it on the way out
+                sl = {(b.path, nd) for nd in f10.slice_local([L(0)], data_only=True)}
+                if (b.path, ("CALL", t.bb)) not in sl:
+                    continue
+                what = "the value returned by %s" % last
+                starts = True
+            elif last in ("from_name", "from_name_and_attributes") and "node::Node" in t.callee.short or (last in ("new", "with_weight", "with_attribute", "with_weight_and_attribute") and "edge::Edge" in t.callee.short):
+                reads = set()
+                for a in t.args[: (1 if "Node" in t.callee.short else 2)]:
+                    reads |= set(f10._op_reads(a))
+                sl = {(b.path, nd) for nd in f10.slice_local(reads, data_only=True)}
+                what = "the name handed to %s::%s" % (t.callee.short.split("::")[-2], last)
+                starts = True
+            if not starts:
+                continue
+            n10 += 1
+            bad = set()
+            for (bp, nd) in sl:
+                if nd[0] == "CALL":
+                    tt = prog.bodies[bp].blocks[nd[1]].term
+                    if tt.callee and tt.callee.short.split("::")[-1] in CHANGING and tt.args and tt.args[0].place is not None and ("str" in tt.args[0].place.ty or "String" in tt.args[0].place.ty or "Cow<" in tt.args[0].place.ty):
+                        bad.add(tt.callee.short.split("::")[-1])
+            ctx.require(not bad, "V10", "verbatim|%s|%d" % (b.short, n10), "%s in %s passes through no content-changing string operation" % (what, b.short.split("::")[-1]),
+                        "%s in %s passes through %s: names that differ only in what that operation removes or rewrites (outer blanks, case ..) are merged or renamed on reading, so a written graph does not come back with its own node names" % (what, b.short, "/".join(sorted(bad))), loc_str(t.span))
+    ctx.floor("V10", "value_flows", n10, 3)
+
     # ------------------------------------------------------------------ V6 file = string
     ctx.rule("V6", "file variants wrap the string variants with file I/O only")
     wfile = prog.one("graphml::write_graphml_file")
